@@ -376,7 +376,7 @@ theorem fit_d_some (S : Matrix) (o : Int) (r q : List Nat) (i j : Nat) (hi : i <
 theorem exists_cand_fit (S : Matrix) (o : Int) (r q : List Nat) (i j : Nat) (hi : i < r.length)
     (hj : j < q.length) (k : Kind) (v : Int)
     (h : ((fitTable S o r q).at (i + 1) (j + 1)).get k = some v) (_ : ¬ ((false : Bool) = true ∧ v = 0)) :
-    ∃ cd ∈ cands false S o (r.getD i 0) (q.getD j 0),
+    ∃ cd ∈ cands false S o (r.getD i 0) (q.getD j 0), cd.1 = k ∧
       vadd ((predOf (fitTable S o r q) (i + 1) (j + 1) cd.1).get cd.2.1) cd.2.2 = some v := by
   apply Biogo.Proofs.NWAffine.exists_cand_of_inner i j _ k v h
   rw [fitTable_at S o r q (i + 1) (j + 1) (by omega), fitTable_at S o r q i j (by omega),
@@ -406,9 +406,9 @@ theorem fitAlign_sound (S : Matrix) (o : Int) (r q : List Nat) (hr : r ≠ []) (
     simp only []
     rw [fitTable_at S o r q _ _ (Nat.le_refl _), hC']; exact hx
   obtain ⟨st', hloop, ⟨hi', hj', v, hv, hsum⟩, hend⟩ :=
-    loop_good_gen false r.length q.length (exists_cand_fit S o r q) x (e' + 1 + q.length) _ hinit
+    loop_good_gen true false r.length q.length (exists_cand_fit S o r q) x (e' + 1 + q.length) _ hinit
       (Nat.le_refl _)
-  have hinv := Biogo.Proofs.TraceWF.loop_inv false _ S o r q r.length q.length (e' + 1) q.length _ _ st'
+  have hinv := Biogo.Proofs.TraceWF.loop_inv true false _ S o r q r.length q.length (e' + 1) q.length _ _ st'
     (Biogo.Proofs.TraceWF.init_inv r.length q.length (e' + 1) q.length .m hE (Nat.le_refl _)) hloop
   obtain ⟨_, hlast, _⟩ := Biogo.Proofs.TraceWF.emit_wf hinv
   have hne : st'.emit.aln ≠ [] := by simp [TB.emit]
